@@ -71,7 +71,7 @@ class StlTimesHarness(Harness):
                  "for 30000/1001 fps the statement does not say whether labels are drop-frame: either count is accepted; for the "
                  "other four rates only the non-drop count at the nominal rate")
   outside = ("time-code bytes that are not valid labels",)
-  required_witnesses = ("subtitle-kept", "dropped-before-start", "program-start-from-tcp")
+  required_witnesses = ("subtitle-kept", "dropped-before-start", "program-start-from-tcp", "invalid-tcp")
   bounds = {"quick": "5 DFC values x program_start_tc {none, TCP with symbolic TCP, explicit 10:00:00:00}; TCI/TCO h,m,s,f symbolic",
             "thorough": "same"}
   budget_s = {"quick": 200, "thorough": 600}
@@ -93,10 +93,16 @@ class StlTimesHarness(Harness):
     start_frames = [z3.IntVal(0)]
     if start == "tcp":
       # a concrete but solver-chosen programme start: hours by choice, rest fixed (GSI fields are ASCII digits)
-      hh = ex.choice("tcp_h", 3) * 10
-      tcp = b"%02d300000" % hh
-      start_frames = label_frames(*[z3.IntVal(x) for x in (hh, 30, 0, 0)], fps)
-      ex.witness("program-start-from-tcp")
+      sel = ex.choice("tcp_h", 4)
+      if sel == 3:
+        # TCP is not a time code: reported, the programme start falls back to zero
+        tcp = b"ab300000"
+        ex.witness("invalid-tcp")
+      else:
+        hh = sel * 10
+        tcp = b"%02d300000" % hh
+        start_frames = label_frames(*[z3.IntVal(x) for x in (hh, 30, 0, 0)], fps)
+        ex.witness("program-start-from-tcp")
     elif start == "explicit":
       start_frames = label_frames(*[z3.IntVal(x) for x in (10, 0, 0, 0)], fps)
     df, exc = call(ex, datafile.DataFile, gsi_block(dfc=dfc, tcp=tcp), False, False,
